@@ -29,7 +29,7 @@ type c02Case struct {
 	RX      string `json:"rx"`      // "-" absent
 	Noise   string `json:"noise"`   // "", "padding", "udp"
 	Masq    int    `json:"masq"`    // 0 default 404, 1 custom echo handler
-	History int    `json:"history"` // 0 fresh, 1 after rejected auth, 2 after accepted auth, 3 after two masq requests
+	History int    `json:"history"` // 0 fresh, 1 after rejected auth, 2 after accepted auth, 3 after two masq requests, 4/5 another connection authenticated (closed / still open)
 }
 
 var (
@@ -39,7 +39,8 @@ var (
 	c02Auths     = []string{"-", "", "good", "bad"}
 	c02RXs       = []string{"-", "0", "100000", "abc"}
 	c02Noises    = []string{"", "padding", "udp"}
-	c02Histories = []string{"fresh", "after-rejected-auth", "after-accepted-auth", "after-two-masq-requests"}
+	c02Histories = []string{"fresh", "after-rejected-auth", "after-accepted-auth", "after-two-masq-requests",
+		"after-another-connection-authenticated-and-closed", "while-another-connection-is-authenticated"}
 )
 
 // custom masquerade handler: echoes the request into status, headers (one of its own choosing,
@@ -135,6 +136,20 @@ func c02Run(c *c02Case) (clause string) {
 		if r.srv == nil {
 			return
 		}
+		// histories 4 and 5: the state of OTHER connections of the same server (whatever the
+		// server keeps or recycles per connection must not carry over to a new peer)
+		var other *rigClient
+		if c.History == 4 || c.History == 5 {
+			other = r.dial("Z")
+			if resp, err := other.auth("good", 0); err != nil || resp.Status != protocol.StatusAuthOK {
+				e.Fail("history: accepted auth on the other connection got %v %v", resp, err)
+			}
+			if c.History == 4 {
+				other.close()
+				other = nil
+				e.WaitIdle()
+			}
+		}
 		cl := r.dial("A")
 		switch c.History {
 		case 1:
@@ -201,6 +216,9 @@ func c02Run(c *c02Case) (clause string) {
 			}
 		}
 		cl.close()
+		if other != nil {
+			other.close()
+		}
 		r.shutdown(true)
 	})
 	if o.Kind != "ok" {
